@@ -266,6 +266,11 @@ def chk (pred : String) (m : List (String × String)) : Option Bool :=
     pure (Spec.C05.acceptedClaimantOK vals wl (← parseAcct (← get m "v")))
   | "wlview" => do
     pure (Spec.C05.viewIsStore (← parseNatList (← get m "view") ",") (← parseNatList (← get m "stored") ","))
+  | "finhist" => do
+    let first ← parseProphecy (← get m "first")
+    let ns ← get m "now"
+    let now ← if ns == "-" then pure none else (parseProphecy ns).map some
+    pure (Spec.C05.finalKept first now)
   | "thr" => do
     let vals ← parseVals (← get m "vals")
     let wl ← parseNatList (← get m "wl") ","
@@ -387,7 +392,10 @@ def step (st : DState) (toks : List String) : DState × String :=
       let st' := (msgs.flatMap msgDenoms).foldl addDenom { st with s := s' }
       (st', ";".intercalate (outs.map showOut))
     | none => (st, "bad-op")
-  | ["blk"] => (st, "ok")
+  | ["blk", n] =>
+    match n.toNat? with
+    | some n => ({ st with s := (stepWorld drvOrd ⟨st.vals, st.s⟩ (.blocks n)).s }, "ok")
+    | none => (st, "bad-op")
   | ["obs"] => (st, dump st)
   | "chk" :: pred :: rest =>
     match chk pred (kvs rest) with
